@@ -13,4 +13,27 @@ CLAIMED = {
         'generated (filter, document) pairs per run, inside and outside the guard.',
    note=_NOTE + 'Outside the model: regular expressions, $where/$text, $expr (C04), Python int() oddities on path components, NaN/inf.',
    technique='Coq proof (mutual induction over the filter AST) + differential correspondence by vm_compute'),
+ 'C19': dict(design_ref='DESIGN.md 5/C19',
+   text='Theorems C19_rw_2/3/4 (Properties/C19.v): for EVERY schedule of 2, 3 and 4 threads running unbounded sequences of '
+        'reader/writer sections (a section may end by an exception) on the lock protocol of mongomock/thread.py - whose '
+        'instruction lists are regenerated from the source into Gen/LockProg.v on every run - every reachable state satisfies: '
+        'writers exclude each other and all readers, no lock is released unheld or by a non-owner, and some thread in the middle '
+        'of a section can always move (no deadlock); plus readers share (C19_readers_share). Proved by a kernel-checked closure '
+        'computation (389 / 4696 / 48441 states) lifted to all traces by induction. The same schedules are replayed on the real '
+        'RWLock under a deterministic scheduler (600 per run), and store/collection-level schedules (scans, inserts, deletes, '
+        'TTL expiry, index creation from 2-4 threads, yield points at lock operations and between scan steps) are explored on the '
+        'implementation for internal errors, deadlock and non-snapshot scans.',
+   note=_NOTE + 'PARTIAL: the model granularity is one lock operation / one document-iteration step; byte-code level interleavings, '
+        'the GIL and real preemption are not exhibited; the store-level part is exploration of the implementation, not proof.',
+   technique='Coq proof: inductive-invariant (closure) computed by vm_compute and lifted by induction over traces; translator from thread.py; schedule replay'),
+ 'C20': dict(design_ref='DESIGN.md 5/C20',
+   text='Theorems C20_no_silent (for ALL strings starting with $ and every syntactic position the dispatch assembled from the '
+        'generated tables never treats the name as a plain field), C20_routed_expression_operators, C20_options_guarded (every '
+        '(method, option) pair has a reachable NotImplementedError guard, except the listed finding) and '
+        'C20_unimplemented_stages_raise, re-checked on every run against Gen/Tables.v, which is regenerated from filtering.py, '
+        'aggregate.py, collection.py and not_implemented.py by a fail-closed ast translator; plus an exhaustive sweep of the '
+        'MongoDB 5.0 vocabulary and unknown names at every position (3000+ probes) against the real code.',
+   note=_NOTE + 'The theorem is about the dispatch structure read by the translator (tables, chain order, trailing raises); whether '
+        'an implemented operator is correct is C01-C04.',
+   technique='Coq proof over tables generated from the source (ast translator) + exhaustive vocabulary sweep'),
 }
